@@ -399,6 +399,53 @@ def _apply(m: M, root: str) -> bool:
     return True
 
 
+def seeded_changes() -> List[Tuple[str, str, Dict[str, List[str]]]]:
+    """(id, patch path, {property: [rules that reported it]}) for every confirmed seeded change under /verif/seeded."""
+    import json
+    from .core import VERIF
+    out = []
+    base = os.path.join(VERIF, "seeded")
+    if not os.path.isdir(base):
+        return out
+    for d in sorted(os.listdir(base)):
+        mp, pp = os.path.join(base, d, "meta.json"), os.path.join(base, d, "patch.diff")
+        if not (os.path.exists(mp) and os.path.exists(pp)):
+            continue
+        try:
+            meta = json.load(open(mp))
+        except ValueError:
+            continue
+        if not meta.get("confirmed"):
+            continue
+        exp = {}
+        for prop, v in meta.get("checks_reporting", {}).items():
+            if v.get("exit") == 1:
+                exp[prop] = sorted({x.split()[0].split("/")[1] for x in v.get("violated", [])})
+        if exp:
+            out.append((d, pp, exp))
+    return out
+
+
+def _work_seed(args) -> dict:
+    sid, patch, prop, rules, repo, scratch, base_keys = args
+    import subprocess
+    from . import core
+    root = os.path.join(scratch, "seed-%s-%s" % (sid, prop))
+    os.makedirs(root)
+    try:
+        _copy_tree(repo, root)
+        r = subprocess.run(["git", "apply", "--whitespace=nowarn", patch], cwd=root, capture_output=True, text=True)
+        if r.returncode != 0:
+            return {"id": "seed:" + sid, "prop": prop, "status": "skipped", "desc": "seeded change (patch does not apply to this tree)"}
+        run = core.run_property(prop, root, "quick")
+        new = [o for o in run.violated if o.key not in base_keys]
+        hit = [o for o in new if o.rule in rules]
+        return {"id": "seed:" + sid, "prop": prop, "status": "caught" if hit else "missed", "desc": "seeded change " + sid,
+                "rules": sorted({o.rule for o in new}), "first": hit[0].key if hit else "", "errors": run.errors[:2], "expect": rules}
+    finally:
+        shutil.rmtree(root, ignore_errors=True)
+
+
 def _work(args) -> dict:
     mid, prop, repo, scratch, base_keys = args
     from . import core
@@ -433,21 +480,23 @@ def run(prop: str, repo: str, jobs: int = 4, seed: int = 0) -> dict:
     results = []
     try:
         args = [(mid, p, os.path.abspath(repo), scratch, base_keys) for mid, p in tasks]
-        if jobs <= 1 or len(args) <= 1:
-            results = [_work(a) for a in args]
+        sargs = [(sid, patch, prop, exp[prop], os.path.abspath(repo), scratch, base_keys) for sid, patch, exp in seeded_changes() if prop in exp]
+        if jobs <= 1 or len(args) + len(sargs) <= 1:
+            results = [_work(a) for a in args] + [_work_seed(a) for a in sargs]
         else:
-            with ProcessPoolExecutor(max_workers=min(jobs, len(args))) as ex:
-                results = list(ex.map(_work, args))
+            with ProcessPoolExecutor(max_workers=min(jobs, len(args) + len(sargs))) as ex:
+                results = list(ex.map(_work, args)) + list(ex.map(_work_seed, sargs))
     finally:
         shutil.rmtree(scratch, ignore_errors=True)
     mut = [r for r in results if r["status"] in ("caught", "missed", "skipped") and not any(b.mid == r["id"] for b in BENIGN)]
     ben = [r for r in results if any(b.mid == r["id"] for b in BENIGN)]
     broken = ["mutant %s (%s) was not reported by rule(s) %s; rules that fired: %s %s"
-              % (r["id"], r["desc"], next(m for m in MUTANTS if m.mid == r["id"]).expect[prop], r.get("rules"), r.get("errors") or "")
+              % (r["id"], r["desc"], r.get("expect") or next(m for m in MUTANTS if m.mid == r["id"]).expect[prop], r.get("rules"), r.get("errors") or "")
               for r in mut if r["status"] == "missed"]
     broken += ["benign variant %s (%s) made the check report %s" % (r["id"], r["desc"], r.get("detail")) for r in ben if r["status"] == "noisy"]
     return {
         "mutants": len(mut), "caught": len([r for r in mut if r["status"] == "caught"]),
+        "seeded_changes_replayed": len([r for r in mut if r["id"].startswith("seed:")]),
         "skipped": len([r for r in mut + ben if r["status"] == "skipped"]),
         "benign": len(ben), "benign_silent": len([r for r in ben if r["status"] == "silent"]),
         "broken": broken,
